@@ -122,7 +122,12 @@ func (evt *throwEvent) Trigger(ctx context.Context) {
 		go evt.run(ctx, sender)
 	})
 
-	evt.mch <- startMessage{}
+	select {
+	case evt.mch <- startMessage{}:
+	case <-evt.stopped:
+		// the loop has ended with its context while an event delivered to the instance
+		// still occupies the inbox: nobody would receive the start request any more
+	}
 }
 
 func (evt *throwEvent) NextAction(ctx context.Context, flow Flow) chan IAction {
